@@ -165,13 +165,29 @@ def r2_3_layouts(ctx, prog, rule="R2.3"):
         paths, info = C.explore_fn(prog, "<%s as stun_rs::attributes::EncodeAttributeValue>::encode" % ic, "i", [r"\{closure", r"AttributeEncoderContext"])
         ctx.fn(info["body"])
         okk = False
+
+        def is_type_code(v):
+            v = _unconv(v)
+            return isinstance(v, tuple) and len(v) == 3 and v[0] == "op:BitOr" and \
+                any(isinstance(x, tuple) and len(x) == 3 and x[0] == "op:Shl" and x[2] == 9 for x in v[1:])
         for pa in paths:
             for e in pa.calls:
                 if re.search(r"<u16 as stun_rs::Encode>::encode$|impl stun_rs::Encode for u16>::encode$", e[1]):
-                    v = C.expr_of(pa, e[2][0])
-                    s = repr(v)
-                    if "('op:BitOr', ('op:Shl'" in s and ", 9)" in s:
+                    if is_type_code(C.expr_of(pa, e[2][0])):
                         okk = True
+        if not okk:
+            # written some other way (to_be_bytes + copy_from_slice, write_u16): bytes 2..4 of the value must be the
+            # big-endian halves of (type << 9) | code
+            from . import coverage_rules as K
+            kp, kinfo = C.explore_fn(prog, "<%s as stun_rs::attributes::EncodeAttributeValue>::encode" % ic, "x", K.STEP, memo_shared=True)
+            for pa in kp:
+                r = C.expr_of(pa, pa.ret)
+                if not (isinstance(r, tuple) and r[0] == "Result::Ok"):
+                    continue
+                ivs, probs = K.intervals(prog, pa, "obj:ctx.raw_value")
+                b2, b3 = K.byte_value(ivs, 2), K.byte_value(ivs, 3)
+                okk = all(isinstance(x, tuple) and x[0] == "be-byte" and x[3] == 2 and is_type_code(x[1]) for x in (b2, b3)) \
+                    and (b2[2], b3[2]) == (0, 1) and not probs
         ctx.ob(rule, "icmp:encode", okk, "ICMP encodes (type << 9) | code", info["where"])
         paths, info = C.explore_fn(prog, "<%s as stun_rs::attributes::DecodeAttributeValue>::decode" % ic, "x", [r"\{closure", r"AttributeDecoderContext"])
         okd = False
@@ -356,6 +372,9 @@ def r2_6_address_layout(ctx, prog, rule="R2.6"):
         # exactly the bytes 1 .. size are read (family, port, address), however the reads are split
         read_bytes = set()
         for lo, hi in reads:
+            if not isinstance(lo, int) or not (hi is None or isinstance(hi, int)):
+                read_bytes.add(10 ** 6)                     # a range the rule cannot evaluate: not the expected layout
+                continue
             read_bytes |= set(range(lo, hi)) if hi is not None else {lo, 10 ** 6}
         ok = want is not None and read_bytes == set(range(1, want))
         if ok:
